@@ -87,7 +87,7 @@ PROPS = {
     'C13': dict(
         corr_only=['cap'], directed=['c13_shrink_raises'],
         comps=['cap', 'clone_cap', 'mon_c13', 'growth'] + [(c, CAPOPS) for c in ('res', 'keyset', 'order', 'ents', 'sizes', 'cur', 'max', 'drops')],
-        theorems=['C13_transparent', 'C13_reserve', 'C13_try_reserve_fail', 'C13_shrink', 'C13_shrink_to_fit', 'C13_with_capacity_step', 'C13_auto_growth', 'C13_growth_bounded', 'C13_monitor_growth_insert', 'C13_monitor_growth_try_insert'],
+        theorems=['C13_transparent', 'C13_reserve', 'C13_try_reserve_fail', 'C13_shrink', 'C13_shrink_to_fit', 'C13_with_capacity_step', 'C13_auto_growth', 'C13_growth_bounded', 'C13_monitor_growth_insert', 'C13_monitor_growth_try_insert', 'C13_monitor_sound'],
         assumptions=['Layer T is a demonic abstraction of hashbrown: tombstone creation/reuse is an oracle resolved from the observed capacity; every observed (len, capacity, buckets) transition must be one the model allows',
                      'allocator refusal is injected by the harness allocator for try_reserve'],
     ),
